@@ -8,15 +8,20 @@ Bases == { <<2 * D, 0, 10 * D, 0, -2 * D, 20 * D>>, <<-2 * D, 0, 10 * D, 0, -2 *
            <<2 * D, 0, 10 * D, 0, -1 * D, 20 * D>>, <<0, 2 * D, 10 * D, 2 * D, 0, 20 * D>>, <<1440, -1920, 10 * D, 1920, 1440, 20 * D>>,
            <<2 * D, 1 * D, 10 * D, 0, -2 * D, 20 * D>> }
 Shapes == {<<1, 4>>, <<3, 1>>, <<3, 4>>, <<2, 2>>}
-VARIABLES g, depth
-vars == <<g, depth>>
-Init == \E A \in Bases, s \in Shapes, crs \in {"none", "A"} : g = [h |-> s[1], w |-> s[2], A |-> A, crs |-> crs] /\ depth = 0
+VARIABLES g, depth, warm
+\* warm: the views of g (footprint, bounding box, labels, resolution, geographic extent ...) have been READ since g was made.  A GeoBox caches some
+\* of them; reading must not change what any later operation returns, so Observe changes nothing but the flag and every transition is emitted
+\* with it (the real box is warmed by reading all its views before the operation is applied).
+vars == <<g, depth, warm>>
+Init == \E A \in Bases, s \in Shapes, crs \in {"none", "A"} : g = [h |-> s[1], w |-> s[2], A |-> A, crs |-> crs] /\ depth = 0 /\ warm = FALSE
 Small(x) == (\A i \in 1..6 : Abs(x.A[i]) < 46000) /\ x.h <= 16 /\ x.w <= 16      \* keeps every product below 2^31
-Next == /\ depth < MaxDepth
+Observe == ~warm /\ warm' = TRUE /\ UNCHANGED <<g, depth>>
+Step == /\ depth < MaxDepth
         /\ \E o \in Ops : LET e == Eff(g, o) IN
               /\ Representable(g, e) /\ Small(Apply(g, e)) /\ Det(Apply(g, e).A) # 0
-              /\ g' = Apply(g, e) /\ depth' = depth + 1
-              /\ Emit([pre |-> g, op |-> o])
+              /\ g' = Apply(g, e) /\ depth' = depth + 1 /\ warm' = FALSE
+              /\ Emit([pre |-> g, op |-> o, warm |-> warm])
+Next == Step \/ Observe
 Spec == Init /\ [][Next]_vars
 \* invariants of the model
 Invertible == Det(g.A) # 0
